@@ -245,7 +245,7 @@ func checkC02(p *Prog, r *Report) {
 	}
 
 	// ---- R2.5 liveness refresh --------------------------------------------------------------
-	r.Rule("R2.5", "On the inbound STUN path the liveness timestamp is refreshed only in handleInbound, for a known remote candidate, and never after a handler reported failure.", 2)
+	r.Rule("R2.5", "On the inbound STUN path the liveness timestamp is refreshed only in handleInbound, for a known remote candidate, and never after a handler reported failure; the decoding stage in front of it calls nothing that stores a last-received time.", 3)
 	nSeen := 0
 	for _, c := range p.CallsTo(hi, false, "ice.Candidate.seen") {
 		nSeen++
@@ -299,6 +299,42 @@ func checkC02(p *Prog, r *Report) {
 				r.Fail(name+": liveness refresh", p.Pos(c.Pos()), "liveness refreshed inside a handler, i.e. possibly before/without full validation")
 			}
 		}
+	}
+
+	// before the loop task: decoding stage of the receive path
+	if f := p.Fn("candidateBase.handleInboundSTUNMessage"); r.Anchor("candidateBase.handleInboundSTUNMessage", f != nil) {
+		var lr *types.Var
+		if _, st := p.StructType("candidateBase"); st != nil {
+			for i := 0; i < st.NumFields(); i++ {
+				if st.Field(i).Name() == "lastReceived" {
+					lr = st.Field(i)
+				}
+			}
+		}
+		bad := ""
+		if lr == nil {
+			bad = "candidateBase.lastReceived not found"
+		}
+		nCalls := 0
+		walkBody(f, func(x ast.Node) bool {
+			c, ok := x.(*ast.CallExpr)
+			if !ok || lr == nil {
+				return true
+			}
+			if o := p.Callee(c); o != nil {
+				if g := p.ByObj[o]; g != nil && g.Body != nil {
+					nCalls++
+					if p.Effects(g).WritesT[lr] {
+						bad = "it calls " + g.Name + ", which refreshes a last-received time"
+					}
+				}
+			}
+			return true
+		})
+		if lr != nil && p.Effects(f).Writes[lr] {
+			bad = "it stores a last-received time itself"
+		}
+		r.Check(bad == "", "decode stage: no liveness refresh before the message is handed to handleInbound", p.Pos(f.Body.Pos()), fmt.Sprintf("%d resolved callees, none writes candidateBase.lastReceived", nCalls), "in handleInboundSTUNMessage "+bad+" before the message was decoded, filtered and authenticated: any STUN-looking datagram from a cached source (wrong USERNAME, broken MESSAGE-INTEGRITY, error response) keeps a dead peer 'alive'")
 	}
 
 	// ---- R2.6 Restart ends the generation ------------------------------------------------------
@@ -444,55 +480,62 @@ func checkRestartWipe(p *Prog, r *Report) {
 		want := map[string]string{"Agent.localUfrag": "param", "Agent.localPwd": "param", "Agent.remoteUfrag": `""`, "Agent.remotePwd": `""`,
 			"Agent.gatheringState": "GatheringStateNew", "Agent.checklist": "fresh", "Agent.pairsByID": "fresh", "Agent.pendingBindingRequests": "fresh"}
 		got := map[string]string{}
-		walkBody(rs, func(n ast.Node) bool {
-			as, ok := n.(*ast.AssignStmt)
-			if !ok || len(as.Lhs) != len(as.Rhs) {
+		collect := func(f *Func) {
+			walkBody(f, func(n ast.Node) bool {
+				as, ok := n.(*ast.AssignStmt)
+				if !ok || len(as.Lhs) != len(as.Rhs) {
+					return true
+				}
+				for i, l := range as.Lhs {
+					fv := p.FieldOf(l)
+					if fv == nil {
+						continue
+					}
+					v := "?"
+					switch x := unparen(as.Rhs[i]).(type) {
+					case *ast.Ident:
+						if _, isVar := p.ObjOf(x).(*types.Var); isVar {
+							v = "param"
+						} else if c := p.constName(x); c != "" {
+							v = c
+						}
+					case *ast.BasicLit:
+						v = x.Value
+					}
+					if _, dup := got[p.FieldName(fv)]; !dup {
+						got[p.FieldName(fv)] = v
+					}
+				}
 				return true
-			}
-			for i, l := range as.Lhs {
-				fv := p.FieldOf(l)
-				if fv == nil {
-					continue
-				}
-				v := "?"
-				rhs := unparen(as.Rhs[i])
-				switch x := rhs.(type) {
-				case *ast.Ident:
-					if _, isVar := p.ObjOf(x).(*types.Var); isVar {
-						v = "param"
-					} else if c := p.constName(x); c != "" {
-						v = c
-					}
-				case *ast.BasicLit:
-					v = x.Value
-				case *ast.CallExpr:
-					if p.CalleeName(x) == "builtin.make" {
-						fresh := len(x.Args) == 1
-						if len(x.Args) == 2 {
-							c, _ := p.ConstVal(x.Args[1])
-							fresh = c == "0"
-						}
-						if fresh {
-							v = "fresh"
-						}
+			})
+		}
+		collect(rs)
+		// helpers called from the task (one level) may carry some of the resets
+		walkBody(rs, func(n ast.Node) bool {
+			if c, ok := n.(*ast.CallExpr); ok {
+				if o := p.Callee(c); o != nil {
+					if h := p.ByObj[o]; h != nil && h.Body != nil && h != rs {
+						collect(h)
 					}
 				}
-				got[p.FieldName(fv)] = v
 			}
 			return true
 		})
+		entry := Loc{p.CFG(rs).Entry, 0}
 		for f, w := range want {
+			if w == "fresh" {
+				r.Check(p.resetsOnAllPaths(rs, entry, f, 2), "Restart resets "+f, p.Pos(rs.Body.Pos()), "fresh empty value on every path (directly or through a helper)", "a path through the Restart task does not reset "+f+" to a fresh empty value: state of the previous generation survives (for the pending transactions: a late answer to a check of the old session is accepted in the new one)")
+				continue
+			}
 			r.Check(got[f] == w, "Restart resets "+f, p.Pos(rs.Body.Pos()), "= "+w, "Restart sets "+f+" to "+orQ(got[f])+", expected "+w+": state of the previous generation survives")
 		}
 		for _, need := range []string{"ice.Agent.deleteAllCandidates", "ice.Agent.setSelector", "ice.Agent.removeUfragFromMux"} {
-			r.Check(len(p.CallsTo(rs, false, need)) > 0, "Restart calls "+strings.TrimPrefix(need, "ice.Agent."), p.Pos(rs.Body.Pos()), "present", "Restart no longer calls "+need)
+			need := need
+			r.Check(p.callOnAllPaths(rs, entry, func(c *ast.CallExpr) bool { return p.CalleeName(c) == need }, 2), "Restart calls "+strings.TrimPrefix(need, "ice.Agent."), p.Pos(rs.Body.Pos()), "on every path", "a path through the Restart task does not call "+need)
 		}
-		unsel := false
-		for _, c := range p.CallsTo(rs, false, "ice.Agent.setSelectedPair") {
-			if len(c.Args) == 1 && p.isNilExpr(c.Args[0]) {
-				unsel = true
-			}
-		}
+		unsel := p.callOnAllPaths(rs, entry, func(c *ast.CallExpr) bool {
+			return p.CalleeName(c) == "ice.Agent.setSelectedPair" && len(c.Args) == 1 && p.isNilExpr(c.Args[0])
+		}, 2)
 		r.Check(unsel, "Restart clears the selection", p.Pos(rs.Body.Pos()), "setSelectedPair(nil)", "Restart leaves the previous generation's selected pair in place")
 		// coverage of mutable collection fields
 		_, ast_ := p.StructType("Agent")
